@@ -12,6 +12,16 @@ var SystemSymbols = []string{"$ion", "$ion_1_0", "$ion_symbol_table", "name", "v
 type Slot struct {
 	Text  string `json:"t,omitempty"`
 	Known bool   `json:"k,omitempty"`
+	// Run > 1: this entry stands for Run consecutive IDs without text (the padding of an import whose declared max_id
+	// lies far beyond its table, up to 2^40 and more); 0 and 1 both mean a single ID.
+	Run int64 `json:"run,omitempty"`
+}
+
+func (s Slot) width() int64 {
+	if s.Run > 1 {
+		return s.Run
+	}
+	return 1
 }
 
 // Shared is a shared symbol table held by a catalog.
@@ -71,17 +81,34 @@ func (c *Context) Reset() {
 	}
 }
 
-func (c *Context) MaxID() int64 { return int64(len(c.Slots)) }
+func (c *Context) MaxID() int64 {
+	var n int64
+	for _, s := range c.Slots {
+		n += s.width()
+	}
+	return n
+}
 
 // Lookup returns the slot for an ID; ok=false when the ID is outside 0..MaxID. ID 0 has no text.
 func (c *Context) Lookup(id int64) (Slot, bool) {
 	if id == 0 {
 		return Slot{}, true
 	}
-	if id < 0 || id > int64(len(c.Slots)) {
+	if id < 0 {
 		return Slot{}, false
 	}
-	return c.Slots[id-1], true
+	at := int64(0)
+	for _, s := range c.Slots {
+		w := s.width()
+		if id <= at+w {
+			if w > 1 {
+				return Slot{}, true
+			}
+			return s, true
+		}
+		at += w
+	}
+	return Slot{}, false
 }
 
 // Resolve turns an ID into the Sym it denotes in this context.
@@ -98,12 +125,27 @@ func (c *Context) Resolve(id int64) (Sym, bool) {
 
 // FindText returns the lowest ID carrying text, or 0.
 func (c *Context) FindText(text string) int64 {
-	for i, s := range c.Slots {
+	at := int64(0)
+	for _, s := range c.Slots {
 		if s.Known && s.Text == text {
-			return int64(i + 1)
+			return at + 1
 		}
+		at += s.width()
 	}
 	return 0
+}
+
+// IDsOf returns every ID at or above from that carries text.
+func (c *Context) IDsOf(text string, from int64) []int64 {
+	var out []int64
+	at := int64(0)
+	for _, s := range c.Slots {
+		if s.Known && s.Text == text && at+1 >= from {
+			out = append(out, at+1)
+		}
+		at += s.width()
+	}
+	return out
 }
 
 // ImportDecl is one entry of an imports list as it appears in a stream.
@@ -159,6 +201,9 @@ func (c *Context) Apply(d LSTDecl, cat *Catalog) error {
 			for i := int64(0); i < max; i++ {
 				if tab != nil && i < int64(len(tab.Symbols)) {
 					slots = append(slots, Slot{Text: tab.Symbols[i], Known: true})
+				} else if max-i > 64 {
+					slots = append(slots, Slot{Run: max - i}) // a long stretch of padding as one entry
+					break
 				} else {
 					slots = append(slots, Slot{})
 				}
